@@ -7,6 +7,7 @@ Results are plain dicts so that they can be computed in worker processes and cac
 from __future__ import annotations
 
 import hashlib
+import itertools
 import json
 import math
 import multiprocessing as mp
@@ -170,7 +171,6 @@ def analyse_rules(repo: Optional[str], tier: str, rules: Optional[List[str]] = N
     import time as _time
     # the whole analysis has a wall-clock deadline: cases not reached by then are reported as not exhausted (undecided),
     # violations found among the explored paths are still violations
-    cfg["deadline"] = _time.time() + (600 if tier == "quick" else 2400)
     tasks = []
     for rname in names:
         for opts in RULE_OPTIONS.get(rname, [{}]):
@@ -180,6 +180,13 @@ def analyse_rules(repo: Optional[str], tier: str, rules: Optional[List[str]] = N
             roots = frontier(prog, body, config, 5)
             for r in roots:
                 tasks.append((rname, opts, r, cfg, str(prog.repo)))
+    # (the deadline starts when the case exploration starts: computing the decision frontiers is not charged to it)
+    cfg["deadline"] = _time.time() + (600 if tier == "quick" else 2400)
+    # one rule's roots must not use up the time of the others: roots are interleaved across rules
+    by_rule: Dict[str, list] = {}
+    for t in tasks:
+        by_rule.setdefault(t[0] + repr(sorted(t[1].items())), []).append(t)
+    tasks = [t for grp in itertools.zip_longest(*by_rule.values()) for t in grp if t is not None]
     nproc = min(int(os.environ.get("VERIF_JOBS", "16")), os.cpu_count() or 1)
     if nproc > 1 and len(tasks) > 4:
         ctx = mp.get_context("fork")
@@ -441,6 +448,10 @@ def _judge_applied(prog: Program, S: Summaries, it: Interp, hv: HeapView, arg: i
     rec["context"] = _audit_context(it, hv, bt)
     rec["orig_untouched"] = _audit_original(it)
     rec["pairs_after"] = _printer_pairs(it, hv, at, "cur", only_new=True)
+    try:
+        rec["pairs_before"] = _printer_pairs(it, hv, bt, "entry", only_new=False)
+    except Exception:  # noqa: BLE001 - only used to tell inherited pairs from created ones
+        rec["pairs_before"] = None
     rec["result_new"] = _is_new(it, res)
     held = []
     ro = getattr(it, "rule_obj", None)
